@@ -183,7 +183,7 @@ func runC18(c *Ctx) {
 		}
 	}()
 	r := c.Res
-	r.Rule = "strings: corpus + all single bytes 1..255 in 3 contexts + all (backslash,byte) pairs + PRNG mix of shell metacharacters, expansions, escapes, ASCII and non-ASCII runes (valid stream) and the same with invalid bytes inserted (extension stream); non-trivial = contains \\ \" $ ` newline or a byte >= 0x80; distinct = distinct input string. Each case: Go quoter vs Lean quote (byte equality), utf8.ValidString vs Lean validUtf8, /bin/sh and bash --posix on the Go-quoted word vs the original (property oracle) and vs Lean dqEval (shell-model validation); formatArgs cases: Go vs Lean formatArgs and real shells' word lists vs Lean shWords vs expected"
+	r.Rule = "strings: corpus + all single bytes 1..255 in 3 contexts + all (backslash,byte) pairs + PRNG mix of shell metacharacters, expansions, escapes, ASCII and non-ASCII runes (valid stream) and the same with invalid bytes inserted (extension stream); non-trivial = contains \\ \" $ ` newline or a byte >= 0x80; distinct = distinct input string. Each case: Go quoter vs Lean quote (byte equality), utf8.ValidString vs Lean validUtf8, /bin/sh and bash --posix on the Go-quoted word vs the original (property oracle) and vs Lean dqEval (shell-model validation); formatArgs cases: Go vs Lean formatArgs and real shells' word lists vs Lean shWords vs expected; job scripts: every shipped template x generated jobs (metacharacters in command, arguments, environment, paths, fork keys, account, resources mapping) and mutated templates: real jobScript vs Lean jobScript vs Lean renderScript byte for byte, Lean shToks of the real script vs the tokens of theorem jobScript_tokens; shell lines: generated command lines (Go-quoted / single-quoted / escaped / bare words, continuations, comments, > and N> redirections), metacharacter soup and x<byte>x for every byte: generator intent vs Lean shToks vs dash and bash; negative witnesses replayed on the real code and shells"
 	shells := c18Shells()
 	shScratch = c.Scratch
 	if len(shells) == 0 {
